@@ -112,7 +112,7 @@ ASSUME = ['uids and descriptions rendered with str() are None / bool / int / str
 
 def main(argv):
     return run_check('C17', [AuditStream()], argv, trusted_base=TRUSTED, assumptions=ASSUME,
-                     translated=('guard', 'checker'))
+                     translated=('guard', 'checker', 'pin_audit'))
 
 
 if __name__ == '__main__':
